@@ -2,6 +2,7 @@ package main
 
 import (
 	"bytes"
+	"crypto/sha256"
 	"fmt"
 	"math/rand"
 	"os"
@@ -88,14 +89,73 @@ func c14Works(rng *rand.Rand, n int) []c14Work {
 
 // c14Inner runs inside the race-instrumented binary: sequential reference, then N goroutines
 // each driving its own instances, under several GOMAXPROCS values, with yield points.
-func c14Inner(seed int64, tier string) (evals, distinct int, problems []string, samples []string) {
+func c14Inner(seed int64, tier string) (evals, distinct int, problems []string, samples []string, hashes []string) {
 	rng := rand.New(rand.NewSource(seed))
 	n := 48
-	rounds := []int{1, 4, 16}
+	rounds := []int{16, 4, 1}
 	if tier == "thorough" {
 		n = 160
 	}
 	ws := c14Works(rng, n)
+	// The concurrent phase comes FIRST, before anything in this process has used the library, so
+	// that unsynchronised lazy initialisation is exercised by goroutines without a
+	// happens-before order; the sequential reference is computed afterwards.
+	type obs struct {
+		i, procs, par int
+		out           []byte
+		problem       string
+	}
+	var observed []obs
+	var mu sync.Mutex
+	for _, procs := range rounds {
+		old := runtime.GOMAXPROCS(procs)
+		for _, par := range []int{32, 8, 2} {
+			var wg sync.WaitGroup
+			start := make(chan struct{})
+			for g := 0; g < par; g++ {
+				wg.Add(1)
+				go func(g int) {
+					defer wg.Done()
+					<-start
+					for i := g; i < len(ws); i += par / 2 { // overlapping assignment: the same case runs in two goroutines
+						runtime.Gosched()
+						out, p := ws[i].run()
+						mu.Lock()
+						evals++
+						observed = append(observed, obs{i, procs, par, out, p})
+						mu.Unlock()
+					}
+				}(g)
+			}
+			close(start)
+			wg.Wait()
+		}
+		runtime.GOMAXPROCS(old)
+	}
+	// history independence: X, then other inputs through writers of the same configuration, then X
+	// again — the second X must give the same bytes (no state survives a closed writer)
+	for i := 0; i < 24; i++ {
+		c := xzCfg{LC: 3, PB: 2, DictCap: []int{8 << 20, 1 << 20, 65536, 4096}[i%4], BufSize: 4096, Matcher: (i / 4) % 2}
+		kind := []string{"xz", "lzma2", "lzma"}[i%3]
+		max := 60000
+		if c.Matcher == 1 {
+			max = 6000
+		}
+		x := c14Work{kind, c, genText(rng, 500+rng.Intn(max))}
+		out1, _ := x.run()
+		for k := 0; k < 3; k++ {
+			y := c14Work{kind, c, genText(rng, 300+rng.Intn(max))}
+			if k == 1 {
+				y.data = genMixed(rng, 300+rng.Intn(max))
+			}
+			y.run()
+		}
+		out2, _ := x.run()
+		evals += 5
+		if !bytes.Equal(out1, out2) {
+			problems = append(problems, fmt.Sprintf("nondeterministic output: %s %s, %d bytes in: %d bytes out first, %d bytes after other writers of the same configuration had been used", kind, c, len(x.data), len(out1), len(out2)))
+		}
+	}
 	ref := make([][]byte, len(ws))
 	for i, w := range ws {
 		out, p := w.run()
@@ -103,46 +163,47 @@ func c14Inner(seed int64, tier string) (evals, distinct int, problems []string, 
 			problems = append(problems, fmt.Sprintf("sequential case %d (%s %s): %s", i, w.kind, w.cfg, p))
 		}
 		ref[i] = out
-		// determinism: a second sequential run yields the same bytes
 		out2, _ := w.run()
 		if !bytes.Equal(out, out2) {
 			problems = append(problems, fmt.Sprintf("nondeterministic output: case %d (%s %s, %d bytes in) gives different bytes on a second run", i, w.kind, w.cfg, len(w.data)))
 		}
 		evals += 2
+		h := sha256.Sum256(out)
+		hashes = append(hashes, fmt.Sprintf("%d %x", i, h[:8]))
 	}
-	for _, procs := range rounds {
-		old := runtime.GOMAXPROCS(procs)
-		for _, par := range []int{2, 8, 32} {
-			var wg sync.WaitGroup
-			var mu sync.Mutex
-			for g := 0; g < par; g++ {
-				wg.Add(1)
-				go func(g int) {
-					defer wg.Done()
-					for i := g; i < len(ws); i += par / 2 { // overlapping assignment: the same case runs in two goroutines
-						runtime.Gosched()
-						out, p := ws[i].run()
-						mu.Lock()
-						evals++
-						if p != "" {
-							problems = append(problems, fmt.Sprintf("concurrent case %d (%s %s) GOMAXPROCS=%d goroutines=%d: %s", i, ws[i].kind, ws[i].cfg, procs, par, p))
-						} else if !bytes.Equal(out, ref[i]) {
-							problems = append(problems, fmt.Sprintf("output differs from the sequential run: case %d (%s %s) GOMAXPROCS=%d goroutines=%d", i, ws[i].kind, ws[i].cfg, procs, par))
-						}
-						mu.Unlock()
-					}
-				}(g)
-			}
-			wg.Wait()
+	for _, o := range observed {
+		if o.problem != "" {
+			problems = append(problems, fmt.Sprintf("concurrent case %d (%s %s) GOMAXPROCS=%d goroutines=%d: %s", o.i, ws[o.i].kind, ws[o.i].cfg, o.procs, o.par, o.problem))
+		} else if !bytes.Equal(o.out, ref[o.i]) {
+			problems = append(problems, fmt.Sprintf("output differs from the sequential run: case %d (%s %s) GOMAXPROCS=%d goroutines=%d", o.i, ws[o.i].kind, ws[o.i].cfg, o.procs, o.par))
 		}
-		runtime.GOMAXPROCS(old)
 	}
 	for i, w := range ws {
 		if i < 4 {
 			samples = append(samples, fmt.Sprintf("%s %s in=%d out=%d", w.kind, w.cfg, len(w.data), len(ref[i])))
 		}
 	}
-	return evals, len(ws), problems, samples
+	return evals, len(ws), problems, samples, hashes
+}
+
+// cmdC14Fresh computes the output hash of ONE case as the first use of the library in a fresh
+// process: the reference for "deterministic function of configuration and input".
+func cmdC14Fresh(args []string) int {
+	var seed int64 = 1
+	tier := "quick"
+	idx := 0
+	fmt.Sscan(args[0], &seed)
+	tier = args[1]
+	fmt.Sscan(args[2], &idx)
+	n := 48
+	if tier == "thorough" {
+		n = 160
+	}
+	ws := c14Works(rand.New(rand.NewSource(seed)), n)
+	out, p := ws[idx].run()
+	h := sha256.Sum256(out)
+	fmt.Printf("%d %x %s\n", idx, h[:8], p)
+	return 0
 }
 
 func cmdC14Inner(args []string) int {
@@ -154,10 +215,13 @@ func cmdC14Inner(args []string) int {
 	if len(args) > 1 {
 		tier = args[1]
 	}
-	evals, distinct, problems, samples := c14Inner(seed, tier)
+	evals, distinct, problems, samples, hashes := c14Inner(seed, tier)
 	fmt.Printf("EVALS %d DISTINCT %d\n", evals, distinct)
 	for _, s := range samples {
 		fmt.Println("SAMPLE " + s)
+	}
+	for _, h := range hashes {
+		fmt.Println("HASH " + h)
 	}
 	for _, p := range problems {
 		fmt.Println("PROBLEM " + p)
@@ -189,6 +253,43 @@ func checkC14(a *checkArgs, r *Result) error {
 	case <-time.After(25 * time.Minute):
 		cmd.Process.Kill()
 		r.Violate("counterexample", "race-harness-hang", map[string]interface{}{"op": "concurrent"}, "the concurrent run did not finish")
+	}
+	inproc := map[string]string{}
+	for _, ln := range strings.Split(stdout.String(), "\n") {
+		if strings.HasPrefix(ln, "HASH ") {
+			f := strings.Fields(ln)
+			if len(f) == 3 {
+				inproc[f[1]] = f[2]
+			}
+		}
+	}
+	// fresh-process references: each case computed as the very first use of the library
+	{
+		var wg sync.WaitGroup
+		var mu sync.Mutex
+		sem := make(chan struct{}, 16)
+		for idx := range inproc {
+			wg.Add(1)
+			sem <- struct{}{}
+			go func(idx string) {
+				defer wg.Done()
+				defer func() { <-sem }()
+				out, err := exec.Command(race, "c14fresh", fmt.Sprint(a.seed), a.tier, idx).Output()
+				f := strings.Fields(string(out))
+				mu.Lock()
+				defer mu.Unlock()
+				r.Evaluations++
+				if err != nil || len(f) < 2 {
+					r.Violations = append(r.Violations, Violation{"broken-correspondence", "fresh-process reference failed", map[string]interface{}{"op": "concurrent", "case": idx}, fmt.Sprint(err)})
+					return
+				}
+				if f[1] != inproc[idx] {
+					r.Violations = append(r.Violations, Violation{"counterexample", "output depends on what the process did before", map[string]interface{}{"op": "concurrent", "seed": a.seed, "case": idx},
+						fmt.Sprintf("case %s: output in a process that ran other readers/writers before differs from the output of a fresh process (hash %s vs %s)", idx, inproc[idx], f[1])})
+				}
+			}(idx)
+		}
+		wg.Wait()
 	}
 	for _, ln := range strings.Split(stdout.String(), "\n") {
 		switch {
@@ -223,4 +324,5 @@ func checkC14(a *checkArgs, r *Result) error {
 func init() {
 	checks["C14"] = checkC14
 	extraCmds["c14inner"] = cmdC14Inner
+	extraCmds["c14fresh"] = cmdC14Fresh
 }
